@@ -130,6 +130,19 @@ CHECKS['C01'] = {
     'technique': 'must-pass-through on the CFG with guard terms + layout typestate over resolved calls + sibling skeletons',
 }
 
+CHECKS['C02'] = {
+    'category': 'other',
+    'text': 'Refutation/structural clauses decided on closed forms extracted from MIR: scale-type (dimensional) inference shows pdf : X^-1, mean : X, '
+            'var : X^2, cdf : 1, ln_pdf : ln X^-1 for the seeded families with exponents polynomial in the dimensionless parameters; every bounded-support '
+            'pdf/pmf returns 0 under a test of its argument with no narrowing cast before it; no integer division under an int->float cast in Mean/'
+            'Variance; pdf/pmf non-negative under constructor invariants (interval domain, reported only when proved); overriding ln_pdf == ln(pdf) by '
+            'log-normalisation; named constants equal what their name states; the Poisson factorial is formed consistently in pmf and sampler. '
+            'Dimensionless factors/exponents (e.g. the Student-t exponent), total mass and MVN are not decided.',
+    'design_ref': 'DESIGN.md 4.2, 3 (E-SYM, E-GRD support-guard, E-ABS, E-TAB)',
+    'note': 'E-SYM is V-sound only (a conflict refutes homogeneity); assumes no cancellation invisible to the algebra. Seeds in cva/props/c02.py.',
+    'technique': 'dimension (homogeneity) type inference over abstractly-interpreted closed forms + control-dependence guard rules + interval abstract interpretation',
+}
+
 NOT_APPLICABLE = {
     'C09': 'accuracy of the Lanczos/asymptotic/Abramowitz-Stegun approximations over a continuum of arguments is a numerical '
            'quantity; no structural clause is a necessary condition without freezing coefficient tables (a brittle proxy); see DESIGN.md 4.9',
